@@ -285,7 +285,7 @@ GRID = {"h_scoped": _grid}
 
 def jobs(tier):
     q = tier == "quick"
-    T = 150 if q else 900
+    T = 300 if q else 900
     J = []
 
     def add(**part):
